@@ -103,7 +103,17 @@ FullSyncMove<SlotType, BUFFER_SIZE> {
     }
 
     #[inline(always)]
+    #[cfg_attr(feature = "verif", allow(unreachable_code))]
     fn available_elements_count(&self) -> usize {
+        // verification build: the two plain loads below, in a fixed order (`tail`, then `head`), with a yield point in front of each
+        #[cfg(feature = "verif")]
+        {
+            vp!("fs.len");
+            let tail = unsafe { * self.tail.get() };
+            vp!("fs.len.head");
+            let head = unsafe { * self.head.get() };
+            return tail.overflowing_sub(head).0 as usize;
+        }
         vp!("fs.len");
         let tail = unsafe { &* self.tail.get() };
         let head = unsafe { &* self.head.get() };
